@@ -32,12 +32,12 @@ CFG = {
                     "nondeterministic and proved invisible); stale cached hashes can only be caught by the correspondence run"],
     "trusted_base": ["Model.Trie mirrors trie/trie.go insert/delete/tryGet, trie/encoding.go and trie/hasher.go over fully loaded nodes; "
                      "Model.TrieProof mirrors trie/proof.go and trie/node.go decodeNode over rlp/raw.go Split; Model.TrieLoad mirrors the hashNode cases "
-                     "(resolveHash/resolve) of tryGet/insert/delete, Commit's db.insert and the hasher's unloading over a node database"],
+                     "(resolveHash/resolve) of tryGet/insert/delete, Commit's db.insert and the hasher's unloading over a node database; Model.TrieLoadFast (hash-map db, one-pass commit, materialising loader used by the driver) is proved equal to them"],
 }
 META = {
     "technique": "Lean 4 proof (map refinement, canonical-shape invariant, uniqueness of the canonical trie => root depends on content only, for any hash function) tied to trie/ by differential correspondence with an independent root",
     "text": "Theorems get_insert, get_delete, wf_insert, wf_delete, wf_unique, run_refines, root_content_only, root_eq_spec, root_binding, iter_is_content, "
-            "compact_hex_roundtrip, keybytes_hex_roundtrip, decode_encode_node, prove_verify, verify_sound (explicit collision-freedom), commit_reopen, reopen_get, unload_get/insert/delete/hashRoot, unload_denotation, commit_reopen_partial, missing_node_is_reported, partial_history_refines, root_content_only_partial, gc_parents_count, gc_keeps_referenced hold for all tries/keys/histories in the Lean model of trie.go/encoding.go/hasher.go/node.go/proof.go; "
+            "compact_hex_roundtrip, keybytes_hex_roundtrip, decode_encode_node, prove_verify, verify_sound (explicit collision-freedom), commit_reopen, reopen_get, unload_get/insert/delete/hashRoot, unload_denotation, commit_reopen_partial, missing_node_is_reported, partial_history_refines, root_content_only_partial, gc_parents_count, gc_keeps_referenced, commit_fast_refines, load_fast_refines hold for all tries/keys/histories in the Lean model of trie.go/encoding.go/hasher.go/node.go/proof.go; "
             "every run re-checks them and replays >1500 random histories on the real Trie/SecureTrie against the compiled model requiring identical "
             "gets, iteration, proofs and root hashes (the root recomputed by Lean's own Keccak), plus direct judgement that no single-byte "
             "alteration of a Merkle proof verifies to a different value.",
